@@ -66,7 +66,7 @@ func ifaceKey(recv types.Type, m *types.Func) []string {
 			}
 		}
 	}
-	if n := namedOf(recv); n == nil && m.Pkg() == nil {
+	if n := namedOf(recv); (n == nil || n.Obj().Pkg() == nil) && m.Pkg() == nil {
 		keys = append(keys, "error."+m.Name())
 	}
 	return keys
